@@ -41,8 +41,10 @@ def optNet : P (Option (Net Rat)) := do
 
 def userFns : P (List (String × UFun Rat)) := many (do let n ← next; let u ← ufun; pure (n, u))
 
-/-- `<static 0|1> <resample interval: inf|k> <point sets the sampler returned at construction, one per data function>` -/
-def preSets : P (Option (List (List (List Rat)))) := do
+/-- `<static 0|1> <resample interval: inf|k> <kept>`: `kept` = the point set a never-resampling static sampler
+    keeps (by value).  The model pre-evaluates every data function on THIS set — how many times the sampler was
+    asked for it during construction is not part of the model. -/
+def preSets : P (Option (List (List Rat))) := do
   let static ← bool
   let it ← next
   let interval ← (match it with
@@ -50,8 +52,12 @@ def preSets : P (Option (List (List (List Rat)))) := do
     | t => match t.toNat? with
       | some k => pure (some k)
       | none => throw s!"interval:{t}" : P (Option Nat))
-  let sets ← many table
-  if shouldPreEval static interval then pure (some sets) else pure none
+  let kept ← table
+  if shouldPreEval static interval then pure (some kept) else pure none
+
+/-- one copy of the kept set per data function (the shape `setupDataFns` takes) -/
+def perFn (pre : Option (List (List Rat))) (ufs : List (String × UFun Rat)) : Option (List (List (List Rat))) :=
+  pre.map fun kept => ufs.map fun _ => kept
 
 def errKind : P ErrKind := do
   match (← next) with
@@ -88,7 +94,7 @@ def step (line : String) : String :=
       let sp ← space; let rows ← table; let n ← optNet; let res ← ufun; let ufs ← userFns; let pre ← preSets
       let ps ← named; let ek ← errKind; let rk ← redKind
       return showResult (do
-        let dfs ← setupDataFns sp pre ufs
+        let dfs ← setupDataFns sp (perFn pre ufs) ufs
         let c : SMCond Rat := { net := n, resid := res, dataFns := dfs, params := ps, err := ek, red := rk }
         let bound ← rows.zipIdx.mapM fun ri => do
           let a ← rowArgs c sp rows.length ri.2 ri.1
@@ -123,8 +129,8 @@ def step (line : String) : String :=
       let n ← netND; let res ← ufun; let ufs ← userFns; let preL ← preSets; let preR ← preSets
       let ps ← named; let ek ← errKind; let rk ← redKind
       return showResult (do
-        let ld ← setupDataFns (psp ++ bsp) preL ufs
-        let rd ← setupDataFns (psp ++ bsp) preR ufs
+        let ld ← setupDataFns (psp ++ bsp) (perFn preL ufs) ufs
+        let rd ← setupDataFns (psp ++ bsp) (perFn preR ufs) ufs
         let c : PerCond Rat := { net := n, resid := res, perSpace := psp, leftData := ld, rightData := rd,
                                  params := ps, err := ek, red := rk }
         let bound ← rows.zipIdx.mapM fun ri => do
@@ -141,7 +147,7 @@ def step (line : String) : String :=
                       let sp ← space; let g ← ufun; pure (some (sp, g)) : P (Option (SpaceL × UFun Rat)))
       let res ← ufun; let ufs ← userFns; let pre ← preSets; let ps ← named; let old ← bool
       return showResult (do
-        let dfs ← setupDataFns xsp pre ufs
+        let dfs ← setupDataFns xsp (perFn pre ufs) ufs
         let c : DONCond Rat := { net := n, fsOut := fso, resid := res, dataFns := dfs, params := ps,
                                  sumOverLocations := old }
         let bound ← prows.mapM fun prow => xrows.zipIdx.mapM fun xj => do
@@ -155,7 +161,7 @@ def step (line : String) : String :=
       let n ← netND; let res ← ufun; let ufs ← userFns; let pre ← preSets
       let ps ← named; let ek ← errKind; let rk ← redKind
       return showResult (do
-        let dfs ← setupDataFns sp pre ufs
+        let dfs ← setupDataFns sp (perFn pre ufs) ufs
         let c : IntCond Rat := { net := n, resid := res, dataFns := dfs, params := ps, err := ek, red := rk }
         let bound ← rows.zipIdx.mapM fun ri => do
           let a ← intRowArgs c sp isp rows.length ri.2 ri.1 irows
@@ -167,7 +173,7 @@ def step (line : String) : String :=
       let sp ← space; let rows ← table; let n ← net; let res ← ufun; let ufs ← userFns; let pre ← preSets
       let ps ← named; let ek ← errKind; let ws ← many rat
       return showResult (do
-        let dfs ← setupDataFns sp pre ufs
+        let dfs ← setupDataFns sp (perFn pre ufs) ufs
         let c : SMCond Rat := { net := some n, resid := res, dataFns := dfs, params := ps, err := ek, red := .mean }
         let bound ← rows.zipIdx.mapM fun ri => do
           let a ← rowArgs c sp rows.length ri.2 ri.1
